@@ -43,6 +43,26 @@ Proof. exists (oks (map type_of (subterms ex_ms))). split; vm_compute; reflexivi
 Lemma example_rejected : exists f, find_diff (lift_c ex_pol) (lift_ms ex_ms_bad) = Some f.
 Proof. vm_compute. eexists. reflexivity. Qed.
 
+(* units are part of a lock atom: after(100) (height) and after(500000100) (time) are different
+   atoms.  The miscompilation of seeded change C08-3,
+     or(and(pk(0),after(100)),and(pk(1),after(500000100)))  |->  andor(pk(0),after(100),and_v(v:pk(1),after(100))),
+   is rejected; the distinguishing world is reported by [find_diff]. *)
+Definition ex_units_pol : vpolicy :=
+  COr [(1, CAnd [CKey 0; CAfter 100]); (1, CAnd [CKey 1; CAfter 500000100])].
+Definition ex_units_bad : ms :=
+  MAndOr (MCheck (MPkK 0)) (MAfter 100) (MAndV (MVerify (MCheck (MPkK 1))) (MAfter 100)).
+Lemma example_units :
+  equivb (SAfter 100) (SAfter 500000100) = false
+  /\ equivb (SOlder 144) (SOlder (4194304 + 144)) = false
+  /\ equiv_dec (lift_c ex_units_pol) (lift_ms ex_units_bad) = false
+  /\ exists f, find_diff (lift_c ex_units_pol) (lift_ms ex_units_bad) = Some f
+               /\ fw_lock f = 500000100
+               /\ evalc (world_of f) ex_units_pol = true /\ evals (world_of f) (lift_ms ex_units_bad) = false.
+Proof.
+  split; [vm_compute; reflexivity|]. split; [vm_compute; reflexivity|]. split; [vm_compute; reflexivity|].
+  exists (mkF [0; 1] [] 500000100 2147483648). vm_compute. repeat split.
+Qed.
+
 Lemma example_worlds :
   evalc (mkWorld (fun k => N.eqb k 1) (fun _ _ => false) 0 144) ex_pol = true
   /\ evalc (mkWorld (fun k => N.eqb k 1) (fun _ _ => false) 0 143) ex_pol = false
